@@ -89,7 +89,7 @@ func cmdDump(args []string) {
 	e := NewEnc(w, fn, nil)
 	e.analyzeCFG()
 	for _, li := range e.loopList {
-		fmt.Printf("loop L%d: header block %d (%s) at %s, back edges from", li.ordinal, li.header.Index, li.header.Comment, e.pos(li.header.Instrs[0].Pos()))
+		fmt.Printf("loop L%d [over %q]: header block %d (%s) at %s, back edges from", li.ordinal, li.name, li.header.Index, li.header.Comment, e.pos(li.header.Instrs[0].Pos()))
 		for _, b := range li.backs {
 			fmt.Printf(" %d", b.Index)
 		}
